@@ -331,3 +331,84 @@ Proof.
 Qed.
 
 End Invariants.
+
+(* ------------------------------------------------------------------ degenerate starts (C09) *)
+Record SqrtLaws (A : SArith) : Prop := {
+  sl_sqrt0 : sqrt (@zero (SA A)) = zero;       (* all that is needed of the square root *)
+  sl_abs0 : abs (@zero (SA A)) = zero }.
+
+Section Degenerate.
+Context {A : SArith}.
+Notation F := (T (SA A)).
+Variable FL : FieldLaws (SA A).
+Variable SL : SqrtLaws A.
+Add Field FF3 : (fl_field (SA A) FL).
+Variables (n : nat) (mulA mulAT : list F -> res (list F)).
+Hypothesis LO : LinOp n mulA.
+
+Lemma norm2_zeros m : norm2 (repeat (@zero (SA A)) m) = zero.
+Proof.
+  unfold norm2.
+  assert (E : fold_left (fun acc x : F => add acc (mul (abs x) (abs x))) (repeat zero m) zero = zero).
+  { induction m as [|m IH]; cbn; auto. rewrite (sl_abs0 A SL).
+    replace (add zero (mul zero zero)) with (@zero (SA A)) by ring. exact IH. }
+  rewrite E. apply (sl_sqrt0 A SL).
+Qed.
+
+Lemma one_neq_zero : @one (SA A) <> zero.
+Proof. exact (F_1_neq_0 (fl_field (SA A) FL)). Qed.
+
+Lemma nz_nonzero (x : F) : eqb (nz x) zero = false.
+Proof.
+  unfold nz. destruct (eqb x zero) eqn:E; auto.
+  destruct (eqb one zero) eqn:E1; auto. apply (fl_eqb (SA A) FL) in E1. now apply one_neq_zero in E1.
+Qed.
+
+Lemma div_zero_nz (x : F) : div zero (nz x) = Ok zero.
+Proof.
+  rewrite (fl_div (SA A) FL), nz_nonzero. f_equal. ring.
+Qed.
+
+Lemma guards_pass (b x : list F) : length b = n -> length x = n -> guards n n b x = Ok tt.
+Proof. intros Hb Hx. unfold guards. rewrite Hb, Hx, Nat.eqb_refl. reflexivity. Qed.
+
+(* a guess whose residual b - A x0 is the zero vector is returned at once, untouched *)
+Theorem run_exact_guess sv b x0 max tol ax :
+  (forall itol, sv = BiCG itol -> itol = 1 \/ itol = 2) ->
+  length b = n -> length x0 = n -> mulA x0 = Ok ax -> zipw sub b ax = repeat zero n ->
+  leb zero tol = true ->
+  exists g, run mulA mulAT n n sv b x0 max tol = Ok (IOk 0, x0, g).
+Proof.
+  intros Hit Hb Hx Eax Er Htol.
+  assert (Hax : length ax = n).
+  { destruct (lo_ok n mulA LO x0 Hx) as (w & Ew & Hw). congruence. }
+  assert (Evs : vsub b ax = Ok (repeat zero n)).
+  { unfold vsub. rewrite Hb, Hax, Nat.eqb_refl. now rewrite Er. }
+  destruct sv as [|itol| |]; cbn [run].
+  - unfold solve_cg. rewrite guards_pass, Eax by auto. cbn [bind]. rewrite Evs. cbn [bind].
+    rewrite norm2_zeros, div_zero_nz. cbn [bind]. rewrite Htol. eauto.
+  - unfold solve_bicg, bicg_start. rewrite guards_pass, Eax by auto. cbn [bind]. rewrite Evs. cbn [bind].
+    destruct (Hit itol eq_refl) as [-> | ->]; cbn [Nat.eqb].
+    + rewrite ident_pre_ok by (rewrite ?repeat_length; auto; apply zeros_length). cbn [bind fst snd].
+      rewrite norm2_zeros, div_zero_nz. cbn [bind]. rewrite Htol. eauto.
+    + rewrite ident_pre_ok by (auto; apply zeros_length). cbn [bind].
+      rewrite ident_pre_ok by (rewrite ?repeat_length; auto). cbn [bind fst snd].
+      rewrite norm2_zeros, div_zero_nz. cbn [bind]. rewrite Htol. eauto.
+  - unfold solve_bicgstab. rewrite guards_pass, Eax by auto. cbn [bind]. rewrite Evs. cbn [bind].
+    rewrite norm2_zeros, div_zero_nz. cbn [bind]. rewrite Htol. eauto.
+  - unfold solve_qmr. rewrite guards_pass, Eax by auto. cbn [bind]. rewrite Evs. cbn [bind].
+    rewrite norm2_zeros, div_zero_nz. cbn [bind]. rewrite Htol. eauto.
+Qed.
+
+(* zero right-hand side with a zero guess *)
+Theorem run_zero_rhs_zero_guess sv max tol :
+  (forall itol, sv = BiCG itol -> itol = 1 \/ itol = 2) ->
+  leb zero tol = true ->
+  exists g, run mulA mulAT n n sv (repeat zero n) (repeat zero n) max tol = Ok (IOk 0, repeat zero n, g).
+Proof.
+  intros Hit Htol. apply (run_exact_guess sv _ _ max tol (repeat zero n)); auto using repeat_length.
+  - exact (mulA_zeros FL n mulA LO).
+  - rewrite <- (repeat_length (@zero (SA A)) n) at 3. rewrite (zipw_sub_self FL). now rewrite repeat_length.
+Qed.
+
+End Degenerate.
